@@ -383,7 +383,11 @@ def mutant_pool(isa):
                 K("reg", c="k"), K("imm", t="int"), K("id"),
                 K("mem", b="gpr", sc="1", pre="f", post="f"),
                 K("mem", b="gpr", o="imd", i="gpr", sc="n", pre="f", post="f"),
-                K("mem", b="gpr", o="imd", sc="1", pre="f", post="f")]
+                K("mem", b="gpr", o="imd", sc="1", pre="f", post="f"),
+                # gather / scatter addresses: a vector register as index is no general-purpose index
+                K("mem", b="gpr", i="ymm", sc="n", pre="f", post="f"),
+                K("mem", b="gpr", o="imd", i="xmm", sc="n", pre="f", post="f"),
+                K("mem", b="gpr", i="zmm", sc="1", pre="f", post="f")]
     return [K("reg", c="x"), K("reg", c="w"), K("reg", c="d"), K("reg", c="s"), K("reg", c="q"),
             K("reg", c="v", s="s"), K("reg", c="v", s="d"), K("reg", c="v", s="b"), K("reg", c="z", s="d"),
             K("reg", c="p"), K("imm", t="int"), K("imm", t="double"), K("id"), K("cc", t="EQ"),
